@@ -611,6 +611,36 @@ def input_rule(model, res):
     return n_fun, n_sinks
 
 
+def returned_objects_rule(model, res):
+    """The balance object a market returns is stored in the account history row of the bar.  A market that keeps the object
+    (memo) must never write its fields afterwards - it would rewrite the history of EARLIER bars with later data; a refresh
+    builds a new object."""
+    n = 0
+    for c in sorted(model.subclasses("Market"), key=lambda c: c.name):
+        f = c.methods.get("get_market_balance")
+        if f is None:
+            continue
+        n += 1
+        returned = {r.value.attr for r in ast.walk(f.node) if isinstance(r, ast.Return) and isinstance(r.value, ast.Attribute)
+                    and isinstance(r.value.value, ast.Name) and r.value.value.id == "self"}
+        bad = []
+        for g in c.methods.values():
+            for s in ast.walk(g.node):
+                tgts = s.targets if isinstance(s, ast.Assign) else ([s.target] if isinstance(s, (ast.AugAssign, ast.AnnAssign)) else [])
+                for t in tgts:
+                    if isinstance(t, ast.Attribute) and isinstance(t.value, ast.Attribute) and isinstance(t.value.value, ast.Name) \
+                            and t.value.value.id == "self" and t.value.attr in returned:
+                        bad.append((g, s))
+        res.ob("R-INPUT", f"{c.name}: a returned (memoised) balance object is never modified in place (memo fields: {sorted(returned) or 'none'})",
+               f.loc(), ok=not bad)
+        for g, s in bad[:2]:
+            res.find("R-INPUT", g.qualname, f"in-place write `{ast.unparse(s)[:60]}` to a balance object that was already returned", g.loc(s),
+                     f"{g.qualname}: `{ast.unparse(s)[:80]}` modifies the object that get_market_balance returned before; the account "
+                     f"history rows of earlier bars hold that same object, so their values change after the fact (bars 0..k depend on "
+                     f"what happens later)")
+    return n
+
+
 def run(model, tier="quick"):
     res = Result("C02", EXPLANATION)
     res.rules = ["R-TIME", "R-INPUT"]
@@ -632,6 +662,7 @@ def run(model, tier="quick"):
     res.ob("R-INPUT", f"no statement or call mutates an object stored in a frame cell (functions that mutate a parameter: "
                       f"{sorted(mutating)}; every call site hands them fresh objects)", "demeter/", ok=_nf == 0)
     res.floor("functions_mutating_a_parameter", len(mutating), 1)
+    res.units["balance_objects_checked"] = returned_objects_rule(model, res)
     from ..rules.fresh import fresh_rule
     if "R-FRESH" not in res.rules:
         res.rules.append("R-FRESH")
